@@ -18,6 +18,7 @@ func init() {
 }
 
 const wsPkg = "pkg/websocket"
+const wsPath16 = modPath + "/pkg/websocket"
 const wsPath = modPath + "/pkg/websocket"
 
 // chanOps lists send/close operations on a channel loaded from field `field` of type `typ`.
@@ -239,7 +240,23 @@ func runC16(c *Ctx) {
 	lifted := map[*ssa.Function]bool{}
 	orderOK := func(fn *ssa.Function, ins ssa.Instruction) (bool, []*ssa.BasicBlock, bool, []*ssa.BasicBlock) {
 		q := &pathQuery{fn: fn, target: func(x ssa.Instruction) bool { return x == ins },
-			stop: func(x ssa.Instruction) bool { return isCallTo(x, wsPath+".RoomManager.RemoveConnectionFromAllRooms") }}
+			stop: func(x ssa.Instruction) bool {
+				if isCallTo(x, wsPath+".RoomManager.RemoveConnectionFromAllRooms") {
+					return true
+				}
+				// a method of the connection that unlinks it from every room on all of its paths (the tear-down helper)
+				if cl, ok := x.(*ssa.Call); ok {
+					if sf := staticFn(cl); sf != nil && sf.Pkg != nil && sf.Pkg.Pkg.Path() == wsPath && len(sf.Blocks) > 0 {
+						qq := &pathQuery{fn: sf, target: isReturn, stop: func(y ssa.Instruction) bool {
+							return isCallTo(y, wsPath+".RoomManager.RemoveConnectionFromAllRooms")
+						}}
+						if h, _ := qq.fromEntry(); h == nil {
+							return true
+						}
+					}
+				}
+				return false
+			}}
 		hit, path := q.fromEntry()
 		q2 := &pathQuery{fn: fn, target: func(x ssa.Instruction) bool { return x == ins },
 			stop: func(x ssa.Instruction) bool {
@@ -542,6 +559,136 @@ func assertGuarded(ta *ssa.TypeAssert) bool {
 }
 
 func c16Extra(c *Ctx) {
+	c.rule("C16-R10", "ATOM: a connection's membership has two views - the room's table (Room.connections) and its own (Connection.rooms) - and a tear-down that must leave it in no room. They agree under every interleaving only if each change of membership is one critical section of the connection: (a) every function of Connection that changes both views (calls the room-side add/remove and updates Connection.rooms) holds one mutex of the connection across both steps; (b) the hub's tear-down removes the connection from its rooms under that same mutex and marks the connection as gone there, and (c) the joining function tests that mark under the mutex before it adds - otherwise a join that the loop handles after the unregister (both are queued, select picks at random) puts a connection whose send channel is closed back into a room, and the next room broadcast panics on the hub goroutine")
+	{
+		type memberFn struct {
+			fn       *ssa.Function
+			roomSide []ssa.Instruction
+			ownSide  []ssa.Instruction
+			adds     bool
+		}
+		var ms []memberFn
+		isRoomSide := func(x ssa.Instruction) (bool, bool) {
+			cl, ok := x.(*ssa.Call)
+			if !ok {
+				return false, false
+			}
+			switch callName(cl) {
+			case wsPath16 + ".RoomManager.AddConnectionToRoom", wsPath16 + ".Room.Add":
+				return true, true
+			case wsPath16 + ".RoomManager.RemoveConnectionFromRoom", wsPath16 + ".Room.Remove", wsPath16 + ".RoomManager.RemoveConnectionFromAllRooms":
+				return true, false
+			}
+			return false, false
+		}
+		for _, fn := range c.srcFuncs(wsPkg) {
+			if fn.Signature.Recv() == nil || !typeIs(derefPtr(fn.Signature.Recv().Type()), wsPath16, "Connection") {
+				continue
+			}
+			m := memberFn{fn: fn}
+			eachInstr(fn, func(_ *ssa.BasicBlock, _ int, ins ssa.Instruction) {
+				if is, add := isRoomSide(ins); is {
+					m.roomSide = append(m.roomSide, ins)
+					m.adds = m.adds || add
+				}
+				switch x := ins.(type) {
+				case *ssa.MapUpdate:
+					if loadedFromField(x.Map, "Connection", "rooms") {
+						m.ownSide = append(m.ownSide, ins)
+					}
+				case *ssa.Call:
+					if callName(x) == "builtin.delete" && loadedFromField(x.Call.Args[0], "Connection", "rooms") {
+						m.ownSide = append(m.ownSide, ins)
+					}
+				}
+			})
+			if len(m.roomSide) > 0 && len(m.ownSide) > 0 {
+				ms = append(ms, m)
+			}
+		}
+		e10 := newLck(c, &lckConfig{rule: "C16-R10", pkgs: []string{wsPkg}, guards: nil})
+		heldAcross := func(m memberFn) (string, bool) {
+			at, _ := e10.analyse(m.fn)
+			common := map[string]bool{}
+			first := true
+			for _, ins := range append(append([]ssa.Instruction{}, m.roomSide...), m.ownSide...) {
+				cur := map[string]bool{}
+				for cls, n := range at[ins] {
+					if n >= 2 && strings.Contains(cls, ".Connection.") { // held exclusively
+						cur[cls] = true
+					}
+				}
+				if first {
+					common, first = cur, false
+					continue
+				}
+				for k := range common {
+					if !cur[k] {
+						delete(common, k)
+					}
+				}
+			}
+			// the own-view map's mutex is taken and released around the map update only; the membership mutex is one
+			// that is held at the room-side call as well
+			for k := range common {
+				return k, true
+			}
+			return "", false
+		}
+		memberMu := ""
+		for _, m := range ms {
+			cls, ok := heldAcross(m)
+			if ok {
+				memberMu = cls
+			}
+			c.ob("C16-R10", fnKey(m.fn)+"#both-views-change-in-one-critical-section", m.fn.Pos(), ok, "the room's table and the connection's own list are changed in two separate critical sections (and join and leave take them in opposite order): a join racing a leave ends with the connection in the room but not in its own list, or the reverse, and nothing repairs it")
+		}
+		c.ob("C16-R10", wsPkg+"#membership-changing-functions-found", token.NoPos, len(ms) >= 2, "fewer than two functions of Connection change both membership views: the join / leave code is not where the rule expects it")
+		// (b),(c): the tear-down takes the membership mutex and marks the connection; the join tests the mark
+		if memberMu != "" {
+			var markField string
+			tornDown := false
+			for _, fn := range c.srcFuncs(wsPkg) {
+				at, _ := e10.analyse(fn)
+				eachInstr(fn, func(_ *ssa.BasicBlock, _ int, ins ssa.Instruction) {
+					if isCallTo(ins, wsPath16+".RoomManager.RemoveConnectionFromAllRooms") && at[ins][memberMu] >= 2 {
+						tornDown = true
+						// a boolean field of Connection set in the same function under the mutex
+						eachInstr(fn, func(_ *ssa.BasicBlock, _ int, x ssa.Instruction) {
+							if st, ok := x.(*ssa.Store); ok && at[x][memberMu] >= 2 && isConstBool(st.Val, true) {
+								if nt, f, ok := fieldOf(st.Addr); ok && nt != nil && nt.Obj().Name() == "Connection" {
+									markField = f
+								}
+							}
+						})
+					}
+				})
+			}
+			c.ob("C16-R10", wsPkg+"#tear-down-leaves-the-rooms-under-the-membership-mutex", token.NoPos, tornDown && markField != "", "the hub removes a disconnecting connection from its rooms without the connection's membership mutex (or without marking it gone there): a join handled after the unregister re-adds the dead connection")
+			for _, m := range ms {
+				if !m.adds {
+					continue
+				}
+				tested := false
+				if markField != "" {
+					at, _ := e10.analyse(m.fn)
+					eachInstr(m.fn, func(_ *ssa.BasicBlock, _ int, ins ssa.Instruction) {
+						if u, ok := ins.(*ssa.UnOp); ok && loadedFromField(u, "Connection", markField) && at[ins][memberMu] >= 2 {
+							for _, rs := range m.roomSide {
+								if dominatesInstr(ins, rs) {
+									tested = true
+								}
+							}
+						}
+					})
+				}
+				c.ob("C16-R10", fnKey(m.fn)+"#join-refuses-a-connection-that-is-gone", m.fn.Pos(), tested, "the join does not test, under the membership mutex, whether the connection has been torn down: handled after the unregister it puts a connection with a closed send channel back into a room (zombie member; the next room broadcast sends on a closed channel and panics the hub goroutine)")
+			}
+		} else {
+			c.ob("C16-R10", wsPkg+"#tear-down-leaves-the-rooms-under-the-membership-mutex", token.NoPos, false, "there is no membership mutex: the tear-down cannot exclude a concurrent or later join")
+		}
+	}
+
 	c.rule("C16-R9", "WCS/blocking: the hub loop (Hub.Run) is the only receiver of the hub's request channels, and it runs every connect / disconnect / message handler itself. So the API a handler is handed - the exported methods of Connection, MessageContext and VMHandler, with what they call inside the package - must not perform a blocking send on one of those channels: on the loop's goroutine the send waits for a receive that only the sender could make. An unbuffered channel deadlocks at the first call (ws.close() in a handler freezes the hub for everybody), a buffered one when the handler fills it. Sends in a goroutine of their own, in a select with another ready-able case, and the pumps (functions the package starts with `go`) are not on the loop")
 	{
 		wsPath := modPath + "/" + wsPkg
